@@ -553,6 +553,14 @@ func faultThread(c *Cluster, s *vsched.Sched, spec ScenarioSpec) {
 		if l != "" && c.SC != nil {
 			c.SC.NodeBecameUnavailable(c.Nodes[l].Addr)
 		}
+	case "lost-newterm-response":
+		// the leader (the node with the best log, holding whatever is in flight) fences itself but
+		// its answer is lost: the election proceeds without it
+		l, _ := c.LeaderByStatus()
+		if l != "" && c.SC != nil {
+			c.DropNewTermRespFrom = l
+			c.SC.NodeBecameUnavailable(c.Nodes[l].Addr)
+		}
 	case "lost-become-leader-response":
 		// the next BecomeLeader is executed by the node but the coordinator never sees the answer
 		c.DropBecomeLeaderResp = 1
